@@ -12,9 +12,10 @@ class PathDumper(FileDumper):
         PathDumper.__makedirs(self.out_path)
 
     def write_file_to_output(self, filename, path):
+        descriptor = path == 'datapackage.json'
         path = os.path.join(self.out_path, path)
-        # Avoid rewriting existing files
-        if self.add_filehash_to_path and os.path.exists(path):
+        # Avoid rewriting existing data files (their hash is part of their path); the descriptor is always written
+        if self.add_filehash_to_path and not descriptor and os.path.exists(path):
             return
         path_part = os.path.dirname(path)
         PathDumper.__makedirs(path_part)
